@@ -4,6 +4,7 @@ import Operon.Lemmas.C18Live
 import Operon.Lemmas.C18Early
 import Operon.Lemmas.C18Decay
 import Operon.Lemmas.C18Raise
+import Operon.Lemmas.C18Timed
 /-!
 # C18 — healing and tool loops stop within their budgets against any generator
 
@@ -754,6 +755,33 @@ private def liveNever : HealObj (Nat × Int) Unit Nat :=
 example : ((runObj liveNever.call () (0, 4) [.assign fun s => (s.1, 1), .call "p", .assign fun s => (s.1, 2), .call "p"]).map
     fun e => e.2.2.map fun r => r.calls.length) = [none, some 2, none, some 3] := by decide
 
+/-! ### Timing (round 8): `step_timeout` and the durations of the callbacks -/
+
+/-- Timing does not move the budgets: whatever `step_timeout` holds (`None`, zero, tiny, huge, negative; also re-assigned
+    by the callbacks while `supervise` runs) and however long the factory, the steps and the summarizer take by the
+    clock (`tick`: any function of environment, timeout and clock), `supervise` spawns the same workers, runs the same
+    steps on each, returns the same result and leaves the same instance state as the run in which no time passes at
+    all.  Hence every clause above (`≤ max_regenerations + 1` workers, `≤ max_steps_per_worker` steps on each, success
+    only with a marker) holds for every timeout and every duration of the steps. -/
+theorem c18_swarm_blind_to_timing (code : SwarmCode ω) (cfg : SwarmCfg) (adv : SwarmAdv σ W ω η ι τ)
+    (tick : Timed σ → Option Int × Int) (task : τ) (hints0 : η) (sw : SwarmSt ι η) (t : Timed σ) :
+    (supervise code cfg (adv.timed tick) task hints0 sw t).spawns = (supervise code cfg adv task hints0 sw t.env).spawns ∧
+    (supervise code cfg (adv.timed tick) task hints0 sw t).res = (supervise code cfg adv task hints0 sw t.env).res ∧
+    (supervise code cfg (adv.timed tick) task hints0 sw t).sw = (supervise code cfg adv task hints0 sw t.env).sw ∧
+    (supervise code cfg (adv.timed tick) task hints0 sw t).st.env = (supervise code cfg adv task hints0 sw t.env).st :=
+  have h := superviseLoop_timed code cfg adv tick task (superviseFuel cfg) 0 hints0 sw t
+  ⟨h.2.2.2, h.2.2.1, h.2.1, h.1⟩
+
+/-- The step budget under any timing, stated directly: with a `step_timeout` of any value and steps of any duration no
+    spawned worker is stepped more than `max_steps_per_worker` times and at most `max_regenerations + 1` workers are
+    spawned. -/
+theorem c18_swarm_budgets_under_any_timing (code : SwarmCode ω) (cfg : SwarmCfg) (adv : SwarmAdv σ W ω η ι τ)
+    (tick : Timed σ → Option Int × Int) (task : τ) (hints0 : η) (sw : SwarmSt ι η) (t : Timed σ) :
+    (supervise code cfg (adv.timed tick) task hints0 sw t).spawns.length ≤ (cfg.maxRegen + 1).toNat ∧
+    ∀ sp ∈ (supervise code cfg (adv.timed tick) task hints0 sw t).spawns, sp.steps.length ≤ cfg.maxSteps.toNat :=
+  ⟨(c18_swarm_workers_le_regen_succ code cfg (adv.timed tick) task hints0 sw t).1,
+   c18_swarm_steps_le_max code cfg (adv.timed tick) task hints0 sw t⟩
+
 private def code0 : SwarmCode Nat := ⟨fun o => o == 99, fun l => l.eraseDups.length, fun _ _ => false⟩
 /-- workers that count up and never emit the marker -/
 private def swNever : SwarmAdv Nat Nat Nat Nat Nat Unit :=
@@ -767,6 +795,14 @@ private def swFifth : SwarmAdv Nat Nat Nat Nat Nat Unit :=
 example : ((supervise code0 ⟨2, 3⟩ swNever () 0 ⟨0, [], []⟩ 0).spawns.map (·.steps.length)) = [3, 3, 3] ∧
     ((supervise code0 ⟨2, 3⟩ swNever () 0 ⟨0, [], []⟩ 0).res.bind Out.toOption).map (fun r => (r.success, r.total)) =
       some (false, 3) := by
+  decide
+
+/-- timing, non-vacuity: a zero `step_timeout` and steps that take 10 s each (every step overruns the timeout), budget
+    1 + 1 workers x 2 steps: two workers with two steps each, as with no time passing; eight callbacks ran (2 x (factory + 2 steps + summarizer)) -/
+example : ((supervise code0 ⟨1, 2⟩ (swNever.timed fun t => (some 0, t.clock + 10000000)) () 0 ⟨0, [], []⟩
+      ⟨0, some 0, 0⟩).spawns.map (·.steps.length)) = [2, 2] ∧
+    (supervise code0 ⟨1, 2⟩ (swNever.timed fun t => (some 0, t.clock + 10000000)) () 0 ⟨0, [], []⟩
+      ⟨0, some 0, 0⟩).st.clock = 80000000 := by
   decide
 
 /-- success on the second worker: the hypotheses of `c18_swarm_success_only_with_marker` are met -/
